@@ -701,6 +701,34 @@ func runC17(c *run.Ctx) {
 	for i := 0; i < n && !c.TooMany(); i++ {
 		r := c.Rand(i)
 		ms := gen.TypeSchema(r, gen.TypeOpts{NastyStrings: i%2 == 0, Directives: true, CustomRoots: true, Small: i%3 == 0})
+		if i%4 == 1 {
+			// an application directive that happens to have an argument called `reason` (and one called `name`), used with it
+			// on fields and enum values, before or after a @deprecated use: deprecation is what @deprecated says and nothing else
+			ms.Dirs = append(ms.Dirs, &model.DirDef{Name: "zzAudit", Args: []*model.ArgDef{{Name: "reason", Type: model.Named("String")}, {Name: "name", Type: model.Named("String")}},
+				On: []string{"FIELD_DEFINITION", "ENUM_VALUE"}})
+			use := func(k int) model.DirUse {
+				return model.DirUse{Name: "zzAudit", Args: []model.Arg{{Name: "reason", Value: fmt.Sprintf("audited %d", k)}, {Name: "name", Value: "zzAuditor"}}}
+			}
+			put := func(dirs []model.DirUse, k int) []model.DirUse {
+				switch r.Intn(3) {
+				case 0:
+					return append(dirs, use(k))
+				case 1:
+					return append([]model.DirUse{use(k)}, dirs...)
+				}
+				return dirs
+			}
+			for _, t := range ms.Types {
+				for k, f := range t.Fields {
+					f.Dirs = put(f.Dirs, k)
+				}
+				for k, ev := range t.Values {
+					ev.Dirs = put(ev.Dirs, k)
+				}
+			}
+			ms.Reindex()
+			c.Bucket("steering", "directive-with-a-reason-argument-next-to-deprecated")
+		}
 		sdl := ms.SDL(model.SDLOpts{BlockDesc: i%3 == 0})
 		nontriv := strings.Contains(sdl, "@deprecated") || strings.Contains(sdl, " = ") || strings.Contains(sdl, "directive @")
 		roots := map[string]*ggql.Root{}
